@@ -695,6 +695,65 @@ macro_rules! dispatch_walk {
 }
 for_agents! { dispatch_walk }
 
+/// A reply that is legal by its kind but wrong in its content: the keep-alive server answers with another cookie than
+/// the one requested. The client must report an error *and stay where it was* (state `Server`, no agency), as the
+/// statement says for everything it rejects.
+fn keepalive_cookie_mismatch(s: &Session, delta: &u16, obs: &mut Obs) -> Result<(), Fail> {
+    let rt = net::rt_current();
+    let delta = *delta;
+    let r: Result<Result<(), Fail>, Trouble> = rt.block_on(async move {
+        let mut rig = Rig::<ag::KaClient>::new()?;
+        let res = async {
+            let ctx0 = Ctx { cookie: rig.ctx.cookie };
+            let out = rig.agent.op("send_keepalive_request", &ctx0).await;
+            if let OpOut::Rejected(e) = &out {
+                return Ok(Err(Fail { sig: "c23:keepalive:client:Client:KeepAlive:send-refused".into(), msg: format!("send_keepalive_request failed: {e}") }));
+            }
+            let _ = rig.wire().await?; // learns the cookie the client put on the wire
+            let before = rig.agent.state();
+            rig.ctx.cookie = rig.ctx.cookie.wrapping_add(delta);
+            rig.inject("ResponseKeepAlive").await?;
+            let ctx1 = Ctx { cookie: rig.ctx.cookie };
+            let out = rig.agent.op("recv_keepalive_response", &ctx1).await;
+            let ok = matches!(out, OpOut::Accepted);
+            let after = rig.agent.state();
+            if delta == 0 {
+                if !ok || after != "Client" {
+                    return Ok(Err(Fail { sig: "c23:keepalive:client:Server:ResponseKeepAlive:matching-cookie-refused".into(), msg: format!("ok = {ok}, state {before} -> {after}") }));
+                }
+            } else {
+                if ok {
+                    return Ok(Err(Fail { sig: "c23:keepalive:client:Server:ResponseKeepAlive:wrong-cookie-accepted".into(), msg: format!("cookie off by {delta} accepted, state {before} -> {after}") }));
+                }
+                if after != before {
+                    return Ok(Err(Fail {
+                        sig: "c23:keepalive:client:Server:ResponseKeepAlive:rejected-but-state-changed".into(),
+                        msg: format!("a response with a cookie off by {delta} was rejected, yet the client moved from {before} to {after}"),
+                    }));
+                }
+            }
+            Ok(Ok(()))
+        }
+        .await;
+        rig.stop().await;
+        res
+    });
+    drop(rt);
+    obs.class(if delta == 0 { "keepalive:matching-cookie" } else { "keepalive:wrong-cookie" });
+    match r {
+        Err(tr) => {
+            s.health(false, &format!("keepalive cookie case: {tr}"));
+            obs.discard();
+            Ok(())
+        }
+        Ok(Err(f)) => Err(f),
+        Ok(Ok(())) => {
+            obs.nontrivial_if(delta != 0);
+            Ok(())
+        }
+    }
+}
+
 pub fn run(s: &Session) {
     s.set_rule(
         "triples: every (agent, reachable spec state, action) with action = low-level send of each message variant, low-level \
@@ -715,5 +774,6 @@ pub fn run(s: &Session) {
     s.note("unreachable_states", serde_json::json!(unreachable));
     s.note("triples", serde_json::json!(all.len()));
     s.foreach("triples", all, true, |t, obs| dispatch_triple(s, t, obs));
+    s.foreach("keepalive-cookie-mismatch", vec![0u16, 1, 2, 0x00ff, 0x0100, 0x8000, 0xffff], true, |d, obs| keepalive_cookie_mismatch(s, d, obs));
     s.forall("walks", s.pick(60_000, 1_000_000), walk, |w, obs| dispatch_walk(s, w, obs));
 }
